@@ -18,6 +18,7 @@ Not decided (value-level): inputs = outputs + change + fee for the strategies' r
 317 fee of the final shape, dust thresholds, the Orchard turnstile of change selection.
 """
 import re
+import zlib
 
 import assume as S
 import commit
@@ -35,6 +36,318 @@ TB = "zcash_client_backend::fees::TransactionBalance"
 def _calls(body, rx):
     return [(bb, t) for bb, t in body.calls() if not body.blocks[bb].cleanup and
             t.callee.indirect is None and re.search(rx, t.callee.target_p())]
+
+
+# ---------------------------------------------------------------------------- CONSERVE
+class _DU(defuse.DefUse):
+    MAXD = 120
+
+
+PLUMB = re.compile(r"(Try>::branch|::ok_or_else|::ok_or|::map_err|::expect|::unwrap|::cloned|::copied|"
+                   r"Clone>::clone|Deref>::deref)$")
+Z_ADD = "<zcash_protocol::value::Zatoshis as core::ops::Add>::add"
+Z_SUB = "<zcash_protocol::value::Zatoshis as core::ops::Sub>::sub"
+
+
+def _ladd(a, b, k=1):
+    out = dict(a)
+    for x, c in b.items():
+        out[x] = out.get(x, 0) + k * c
+        if out[x] == 0:
+            del out[x]
+    return out
+
+
+class _Lin:
+    """linear forms over the amounts of one function: Zatoshis +/- Zatoshis through the Option / `?`
+    plumbing is unfolded, everything else is an atom named by its (single-definition) origin"""
+
+    def __init__(self, w, fn, env=None):
+        self.w, self.f, self.b = w, fn, fn.body
+        self.du = _DU(fn.body)
+        self.env = env          # for a closure: (parent _Lin, [origins of the captured operands])
+        self.atoms = {}
+
+    def atom(self, o):
+        t = defuse.show(o)
+        t = re.sub(r"closure:[^{]*(\{closure#\d+\})", r"\1", t)
+        k = "%s@%s" % (t if len(t) < 90 else t[:60] + "…" + str(zlib.crc32(t.encode()) % 100000), self.f.p.rsplit("::", 1)[-1])
+        self.atoms[k] = t
+        return {k: 1}
+
+    def poly(self, o, depth=0):
+        if not isinstance(o, tuple) or depth > 200:
+            return self.atom(("unknown",))
+        k = o[0]
+        if k in ("ref", "deref"):
+            return self.poly(o[1], depth + 1)
+        if k == "variant":
+            return self.poly(o[1], depth + 1)
+        if k == "const":
+            return {1: o[1]} if isinstance(o[1], int) and o[1] != 0 else ({} if o[1] == 0 else self.atom(o))
+        if k == "constdef":
+            return {} if o[1].endswith("value::Zatoshis::ZERO") else self.atom(o)
+        if k == "field":
+            base = defuse.strip_refs(o[1])
+            if self.env is not None and base == ("arg", 0) and o[2][1:].isdigit():
+                par, caps = self.env
+                i = int(o[2][1:])
+                if i < len(caps):
+                    return par.poly(caps[i], depth + 1)
+            if o[2] == ".0" and base[0] in ("variant", "call"):
+                return self.poly(base, depth + 1)
+            return self.atom(o)
+        if k == "call":
+            name, args = o[1], o[2]
+            if name == Z_ADD and len(args) == 2:
+                return _ladd(self.poly(args[0], depth + 1), self.poly(args[1], depth + 1))
+            if name == Z_SUB and len(args) == 2:
+                return _ladd(self.poly(args[0], depth + 1), self.poly(args[1], depth + 1), -1)
+            if PLUMB.search(name) and args:
+                return self.poly(args[0], depth + 1)
+            return self.atom(("call", name, args))
+        if k == "local":
+            ds = self.du.defs.get(o[1], [])
+            vals = []
+            for kind, _bi, x in ds:
+                if kind == "stmt" and x.rv.kind == "use":
+                    vals.append(self.poly(self.du.origin(x.rv.ops[0]), depth + 1))
+                else:
+                    vals = None
+                    break
+            if vals and all(v == vals[0] for v in vals):
+                return vals[0]
+            return {"_%d:%s@%s" % (o[1], self.b.local_name(o[1]) or "", self.f.p.rsplit("::", 1)[-1]): 1}
+        return self.atom(o)
+
+    def show(self, lin):
+        if not lin:
+            return "0"
+        return " ".join(("%+d*" % c if abs(c) != 1 else ("+" if c > 0 else "-")) + (str(a) if a != 1 else "1")[:70]
+                        for a, c in sorted(lin.items(), key=lambda x: str(x[0])))
+
+
+def _vec_alternatives(L, op, bb):
+    """[(equations, value)] of a Vec<ChangeValue> operand: what its elements sum to, per definition"""
+    import guards as G
+    b, du = L.b, L.du
+
+    def elem_value(o):
+        o = defuse.strip_refs(o)
+        if o[0] == "call" and re.search(r"fees::ChangeValue::(shielded|transparent|ephemeral_transparent)$", o[1]):
+            v = o[2][1] if o[1].endswith("::shielded") else o[2][0]
+            return L.poly(v)
+        return None
+
+    def eqs_at(bi):
+        out = []
+        for sw, v, _tb in G.edge_conditions(b, bi):
+            o = du.origin(b.blocks[sw].term.discr)
+            tr = G.truth(b.blocks[sw].term, v)
+            if o[0] == "call" and o[1].endswith("value::Zatoshis::is_zero") and tr is True:
+                out.append(L.poly(o[2][0]))
+        return out
+
+    def one(kind, bi, x):
+        if kind != "call" or x.callee.indirect is not None:
+            return None
+        nm = x.callee.target_p()
+        if nm.endswith("Vec::<T>::new"):
+            return {}
+        if nm.endswith("box_assume_init_into_vec_unsafe"):
+            # vec![e1, ..]: the array stored through the box in the same block
+            tot, found = {}, False
+            for st in b.blocks[bi].stmts:
+                if st.kind == "=" and st.place.proj and st.rv.kind == "agg" and st.rv.agg[0] == "array":
+                    found = True
+                    for e in st.rv.ops:
+                        v = elem_value(du.origin(e))
+                        if v is None:
+                            return None
+                        tot = _ladd(tot, v)
+            return tot if found else None
+        if nm.endswith("Iterator>::collect") or nm.endswith("Iterator::collect"):
+            return _split_value(L, du.origin(x.args[0]))
+        return None
+    r = du.root_local(op.place) if op.kind in ("copy", "move") else None
+    loc = r[1] if r and len(r) == 2 else (op.place.local if op.kind in ("copy", "move") and not op.place.proj else None)
+    if loc is None:
+        return None
+    out = []
+    for kind, bi, x in du.defs.get(loc, []):
+        if kind == "stmt" and x.rv.kind == "use" and x.rv.ops[0].kind in ("copy", "move"):
+            sub = _vec_alternatives(L, x.rv.ops[0], bi)
+            if sub is None:
+                return None
+            out.extend(sub)
+            continue
+        v = one(kind, bi, x)
+        if v is None:
+            return None
+        out.append((eqs_at(bi), v))
+    return out or None
+
+
+def _split_value(L, o):
+    """(0..n).map(|i| shielded(pool, if i == 0 {q + r} else {q}, memo)).collect() with (q, r) =
+    X.div_with_remainder(n): the elements sum to q*n + r = X. Returns poly(X) when the shape holds."""
+    o = defuse.strip_refs(o)
+    if not (o[0] == "call" and o[1].endswith("::map") and len(o[2]) == 2):
+        return None
+    rng, clo = defuse.strip_refs(o[2][0]), o[2][1]
+    if not (rng[0] == "agg" and rng[1].endswith("Range::Range") and rng[2][0] == ("const", 0)):
+        return None
+    if not (clo[0] == "agg" and clo[1].startswith("closure:")):
+        return None
+    g = L.w.fns.get(clo[1][len("closure:"):])
+    if g is None:
+        return None
+    gl = _Lin(L.w, g, (L, clo[2]))
+    gdu = gl.du
+    ret = gdu.origin_local(0)
+    if not (ret[0] == "call" and ret[1].endswith("fees::ChangeValue::shielded")):
+        return None
+    val = ret[2][1]
+    if val[0] != "local":
+        return None
+    shapes = set()
+    poc = None
+    for kind, _bi, x in gdu.defs.get(val[1], []):
+        if kind == "stmt" and x.rv.kind == "use":
+            t = defuse.show(gdu.origin(x.rv.ops[0]))
+        elif kind == "call" and x.callee.indirect is None:
+            t = defuse.show(("call", x.callee.target_p(), [gdu.origin(a) for a in x.args]))
+        else:
+            return None
+        m = re.match(r"^unwrap\(add\(\*quotient\((.+)\), \*remainder\((.+)\)\)\)$", t)
+        m2 = re.match(r"^\*quotient\((.+)\)$", t)
+        if m and m.group(1) == m.group(2):
+            shapes.add("q+r")
+            poc = poc or m.group(1)
+            if poc != m.group(1):
+                return None
+        elif m2:
+            shapes.add("q")
+            poc = poc or m2.group(1)
+            if poc != m2.group(1):
+                return None
+        else:
+            return None
+    # exactly one element (i == 0) gets the remainder
+    sw = [blk.term for blk in g.body.blocks if not blk.cleanup and blk.term.kind == "switch"]
+    first = [t for t in sw if re.match(r"^\(arg1 Eq 0\)$", defuse.show(gdu.origin(t.discr)))]
+    if shapes != {"q+r", "q"} or len(first) != 1:
+        return None
+    mm = re.match(r"^&\*\*arg0\.(\d+)$", poc or "")
+    if not mm:
+        return None
+    cap = clo[2][int(mm.group(1))]
+    pc = defuse.strip_refs(cap)
+    # through the enclosing closure's own capture
+    if L.env is not None and pc[0] == "field" and defuse.strip_refs(pc[1]) == ("arg", 0):
+        par, caps = L.env
+        pc = defuse.strip_refs(caps[int(pc[2][1:])])
+        owner = par
+    else:
+        owner = L
+    if not (pc[0] == "call" and pc[1].endswith("value::Zatoshis::div_with_remainder")):
+        return None
+    # the divisor is the element count
+    n_txt = defuse.show(pc[2][1])
+    cnt = rng[2][1]
+    if L.env is not None and defuse.strip_refs(cnt)[0] == "field" and defuse.strip_refs(defuse.strip_refs(cnt)[1]) == ("arg", 0):
+        par, caps = L.env
+        cnt = caps[int(defuse.strip_refs(cnt)[2][1:])]
+    c_txt = defuse.show(defuse.strip_refs(cnt))
+    if c_txt not in n_txt:
+        return None
+    return owner.poly(pc[2][0])
+
+
+def rule_conserve(chk, w, f):
+    """Every (change, fee) pair the change calculation produces satisfies
+    sum(change) + fee = total_in - subtotal_out as linear forms over the function's amounts (Zatoshis
+    additions and subtractions unfolded through their Option / `?` plumbing), modulo the equation the
+    pair's own guard establishes (`total_change.is_zero()`, `total_in.cmp(..) == Equal`)."""
+    import guards as G
+    L = _Lin(w, f)
+    b, du = L.b, L.du
+    # the comparison of the inputs with outputs + minimum fee fixes the two totals
+    cmps = [(bb, t) for bb, t in _calls(b, r"Zatoshis as core::cmp::Ord>::cmp$")]
+    tgt = None
+    cmp_eq = None
+    for bb, t in cmps:
+        a0, a1 = L.poly(du.origin(t.args[0])), L.poly(du.origin(t.args[1]))
+        fee_atoms = [a for a in a1 if "fee_required(" in str(a)]
+        if len(a0) == 1 and "total_in(" in str(list(a0)[0]) and len(fee_atoms) == 1 and len(a1) == 2:
+            so = {a: c for a, c in a1.items() if a != fee_atoms[0]}
+            tgt = _ladd(a0, so, -1)
+            cmp_eq = (t.dest.local, _ladd(a0, a1, -1))
+    if tgt is None:
+        chk.fail("CONSERVE", "anchors", "total_in.cmp(&(subtotal_out + min_fee)) not found", f.span.loc())
+        return
+    pairs = []
+
+    def scan(Lx):
+        bx = Lx.b
+        for bi, blk in enumerate(bx.blocks):
+            if blk.cleanup:
+                continue
+            for st in blk.stmts:
+                if st.kind == "=" and st.rv.kind == "agg" and st.rv.agg[0] == "tuple" and len(st.rv.ops) == 2 and \
+                        re.match(r"^\(core::vec::Vec<zcash_client_backend::fees::ChangeValue>, zcash_protocol::value::Zatoshis\)$",
+                                 bx.local_ty(st.place.local)):
+                    pairs.append((Lx, bi, st))
+    scan(L)
+    for g in w.fns.values():
+        if g.is_closure() and g.root == f.id:
+            # the closure's captures, from the aggregate that creates it in the parent
+            caps = None
+            for blk in b.blocks:
+                for st in blk.stmts:
+                    if st.kind == "=" and st.rv.kind == "agg" and st.rv.agg[0] == "closure" and st.rv.agg[1] == g.id:
+                        caps = [du.origin(o) for o in st.rv.ops]
+            if caps is not None:
+                scan(_Lin(w, g, (L, caps)))
+    n = 0
+    for Lx, bi, st in sorted(pairs, key=lambda x: (x[2].span.line, x[2].span.col)):
+        n += 1
+        key = "pair@%s" % ("closure" if Lx.env else "body") + "#%d" % n
+        fee = Lx.poly(Lx.du.origin(st.rv.ops[1]))
+        alts = _vec_alternatives(Lx, st.rv.ops[0], bi)
+        if alts is None:
+            chk.fail("CONSERVE", key + "/shape", "the change list of the pair at %s is not one of the recognised "
+                     "shapes (empty, vec![..] of ChangeValue constructors, the quotient/remainder split)"
+                     % st.span.loc(), st.span.loc())
+            continue
+        eqs0 = []
+        for sw, v, _tb in G.edge_conditions(Lx.b, bi):
+            d = Lx.b.blocks[sw].term.discr
+            o = Lx.du.origin(d)
+            if Lx is L and o[0] == "disc" and v == 0 and cmp_eq is not None:
+                r = Lx.du.root_local(Lx.du.single(d.place.local)[2].rv.place) if Lx.du.single(d.place.local) else None
+                if r and r[1] == cmp_eq[0]:
+                    eqs0.append(cmp_eq[1])          # Ordering::Equal
+        bad = None
+        for eqs, val in alts:
+            diff = _ladd(_ladd(val, fee), tgt, -1)
+            ok = not diff
+            for e in eqs + eqs0:
+                for k_ in (1, -1):
+                    if e and _ladd(diff, e, k_) == {}:
+                        ok = True
+            if not ok:
+                bad = (val, diff)
+        if bad is None:
+            chk.ok("CONSERVE", "pair at %s: sum(change) + fee = total_in - subtotal_out (%d alternative(s) of the "
+                   "change list)" % (st.span.loc(), len(alts)), sample=(n <= 2))
+        else:
+            chk.fail("CONSERVE", key, "the pair at %s does not conserve value: sum(change) = %s, fee = %s, so "
+                     "sum(change) + fee - (total_in - subtotal_out) = %s" % (
+                         st.span.loc(), Lx.show(bad[0]), Lx.show(fee), Lx.show(bad[1])), st.span.loc())
+    if n < 5:
+        chk.fail("CONSERVE", "missing", "expected the five (change, fee) results of the change calculation, found %d" % n,
+                 f.span.loc())
 
 
 COUNT_TY = re.compile(r"^(usize|u64|zcash_client_backend::fees::OutputManifest)$")
@@ -162,6 +475,7 @@ def main(tier):
     chk.trusted = ["rustc MIR", "C09 (Zatoshis arithmetic is checked and exact)", "usize::div_ceil, core::cmp::max"]
     chk.rule("FORMULA", "fee_required computes the ZIP 317 formula with the standard constants", floor=6)
     chk.rule("REFUSE", "InsufficientFunds only when inputs < outputs + fee, reporting those values", floor=2)
+    chk.rule("CONSERVE", "every (change, fee) result satisfies sum(change) + fee = inputs - outputs", floor=5)
     chk.rule("SHAPE", "each fee computation of the change calculation describes one change shape", floor=3)
     chk.rule("BAL", "TransactionBalance only from its constructor; total = sum(change) + fee", floor=3)
     w = zf.World(extract.facts_dir("all"), ["zcash_primitives", "zcash_protocol", "zcash_client_backend",
@@ -355,6 +669,7 @@ def main(tier):
     # ---- SHAPE: one fee computation describes one change shape
     if len(sp) == 1:
         rule_shape(chk, w, sp[0])
+        rule_conserve(chk, w, sp[0])
     else:
         chk.fail("SHAPE", "missing", "single_pool_output_balance not found")
 
